@@ -397,6 +397,23 @@ def frames(ctx):
         R.check(ok, rule, f'{H}.HCI_Event.__bytes__ | header', 'type, code, len(parameters), parameters', 'event serialisation header changed', p.loc(eb))
         R.check('HCI_Event(event_code=event_code, parameters=parameters)' in src and 'HCI_LE_Meta_Event(subevent_code=subevent_code, parameters=parameters)' in src and 'HCI_Vendor_Event(data=parameters)' in src, rule,
                 f'{H}.HCI_Event.from_bytes | unknown codes', 'unknown event / sub-event / vendor event keep their raw parameters', 'unknown events are not carried as generic events with their raw parameters', p.loc(ef))
+        # a vendor factory that cannot parse the event (truncated, unknown layout) falls through to the generic vendor event
+        fc = [c for c in ast.walk(ef) if isinstance(c, ast.Call) and dotted(c.func) == 'vendor_factory']
+        okc = bool(fc)
+        for c in fc:
+            cont = False
+            a, prev = getattr(c, '_parent', None), c
+            while a is not None and a is not ef:
+                if isinstance(a, ast.Try) and any(prev is s_ or any(prev is x for x in ast.walk(s_)) for s_ in a.body):
+                    for h in a.handlers:
+                        nm = {text(t).split('.')[-1] for t in (h.type.elts if isinstance(h.type, ast.Tuple) else [h.type])} if h.type is not None else {'<bare>'}
+                        leaves = any(isinstance(x, (ast.Raise, ast.Return)) for x in ast.walk(h))
+                        if nm & {'Exception', 'BaseException', '<bare>'} and not leaves:
+                            cont = True
+                prev, a = a, getattr(a, '_parent', None)
+            okc = okc and cont
+        R.check(okc, rule, f'{H}.HCI_Event.from_bytes | vendor factory contained', 'an exception raised by a registered vendor factory is caught and the generic vendor event is returned',
+                'a vendor factory that raises on an event it cannot parse (empty or truncated vendor event) makes HCI_Event.from_bytes raise instead of returning a generic HCI_Vendor_Event with the raw bytes', p.loc(fc[0]) if fc else p.loc(ef))
     # --- extended event: parameters = [subevent] + fields  <->  parse at offset 1
     xf = p.find(f'{H}.HCI_Extended_Event.from_parameters')
     xi = p.find(f'{H}.HCI_Extended_Event.__init__')
